@@ -617,3 +617,11 @@ package impl
 //@   requires m.channelMonitor != nil && m.spansIndex != nil && m.transportOptions != nil && m.channelSubscriptions != nil && m.channels != nil && m.transport != nil
 //@   ensures [everything-stopped] called(SpansIndex.EndAll) && called(TransportOptions.ClearAll) && called(ChannelSubscriptions.Stop) &&
 //@       called(Group.Stop) && last(Transport.Shutdown) && result == ret(Transport.Shutdown, 0)
+
+//@ extern func github.com/hannahhoward/go-pubsub.New
+//@   ensures [dependency] result != nil -- assumed of go-pubsub
+//@ func impl.NewDataTransfer {C20,C17}
+//@   constructor manager
+//@   requires dataTransferNetwork != nil && transport != nil && implements(transport, datatransfer.PauseableTransport) && len(options) == 0
+//@       -- options are application input (assumed to keep the manager valid); the transport must support pause / resume
+//@   loop 0 invariant [no-options] $i == 0
